@@ -5,11 +5,13 @@ from harness import common, doc_checks, tree_check
 def run(ctx: common.Ctx):
     tree_check.setup(ctx, 'C05')
     doc_checks.run_c05(ctx)
+    doc_checks.run_c05_costs(ctx)
     tree_check.correspondence(ctx, 'C05')
 
 
 def search(ctx: common.Ctx):
     doc_checks.run_c05(ctx)
+    doc_checks.run_c05_costs(ctx)
 
 
 def replay(ctx, path):
